@@ -393,6 +393,32 @@ fn replay(run: &mut Run, prop: &'static str, path: &std::path::Path) -> ! {
                 }
             }
         }
+        Some("io") | Some("trunc") | Some("trunc_file") | Some("crypt") | Some("dev_full") => {
+            let entries = job_entries("C07", false);
+            let mut out = vec![];
+            let mut st = sweep::Stats::default();
+            vcommon::child::install_crash_handler();
+            vcommon::child::set_state("replay");
+            faults::replay_case(&entries, case, &mut out, &mut st);
+            for f in out {
+                println!("REPLAY-FAIL oracle={} {}", f.v.oracle, f.v.summary);
+                run.violation(f.v);
+            }
+        }
+        Some("malformed") => {
+            let mut entries = job_entries("C06", false);
+            #[cfg(feature = "thorough")]
+            entries.extend(reg::family("types_thorough"));
+            let mut out = vec![];
+            let mut st = sweep::Stats::default();
+            vcommon::child::install_crash_handler();
+            vcommon::child::set_state("replay");
+            malformed::replay_case(&entries, case, &mut out, &mut st);
+            for f in out {
+                println!("REPLAY-FAIL oracle={} {}", f.v.oracle, f.v.summary);
+                run.violation(f.v);
+            }
+        }
         k => vcommon::machinery_error(&format!("replay: unknown case kind {:?}", k)),
     }
     let n = run.violations_found();
